@@ -1,7 +1,7 @@
 (* C15 - Reads inside a storage transaction see pending writes exactly as after commit.
    [merged s] is the database as it will be once the log is committed. *)
 From Coq Require Import List Bool NArith.
-From Akd Require Import Manager ManagerFacts.
+From Akd Require Import Manager ManagerFacts MgrBatch.
 Import ListNotations.
 Open Scope N_scope.
 
@@ -58,7 +58,38 @@ Theorem C15_begin_twice : forall s, m_active s = true -> snd (begin_transaction 
 Proof. exact begin_twice_refused. Qed.
 Print Assumptions C15_begin_twice.
 
+(* batch reads: exactly the records the requested keys have in the database as it will be after the
+   commit (keys without a record contribute nothing; the order is the code's: pending and cached
+   records in request order, then the database's answers) *)
+Theorem C15_batch_get : forall s ks, Inv s -> m_active s = true ->
+  exists l, snd (batch_get s ks false) = Ok l /\
+            forall r, In r l <-> exists k, In k ks /\ kget (merged s) k = Some r.
+Proof. exact txn_batch_get_is_committed. Qed.
+Print Assumptions C15_batch_get.
+
+(* the bulk version query answers per user what the single query answers, when versions follow
+   epochs among the user's stored and pending states (the bulk query can only compare versions) *)
+Theorem C15_versions_as_single_query : forall s u f, versions_follow_epochs s u ->
+  user_state_versions_one s u f =
+  match snd (get_user_state s u f false) with Ok x => Some (vs_version x, vs_value x) | Err _ => None end.
+Proof. exact versions_one_agrees. Qed.
+Print Assumptions C15_versions_as_single_query.
+
+Theorem C15_versions : forall s u f vv, Inv s -> m_active s = true -> rewrite_keeps_version s u ->
+  versions_follow_epochs s u -> user_state_versions_one s u f = Some vv ->
+  exists x, sel f (user_states (merged s) u) x /\ vv = (vs_version x, vs_value x).
+Proof. exact txn_versions_sound. Qed.
+Print Assumptions C15_versions.
+
 Example C15_hyp_sat :
   let s := fst (set_record (fst (begin_transaction (fst (set_record (init_state true) (RVal (VS 1 1 1 5)) false)))) (RVal (VS 1 2 2 6)) false) in
   Inv s /\ m_active s = true /\ snd (get_user_state s 1 MaxEpoch false) = Ok (VS 1 2 2 6).
 Proof. split; [repeat (apply Inv_set || apply Inv_begin || apply Inv_init)|]. split; reflexivity. Qed.
+
+Example C15_versions_hyp_sat :
+  let s := fst (set_record (fst (begin_transaction (fst (set_record (init_state true) (RVal (VS 1 1 1 5)) false)))) (RVal (VS 1 2 2 6)) false) in
+  versions_follow_epochs s 1 /\ user_state_versions_one s 1 MaxEpoch = Some (2, 6).
+Proof.
+  split; [|reflexivity]. intros d m Hd Hm. cbn in Hd, Hm.
+  destruct Hd as [<-|[]]. destruct Hm as [<-|[]]. split; reflexivity.
+Qed.
